@@ -427,7 +427,13 @@ def angles_to_x(points, latitude=False):
         The corresponding Cartesian vectors.
     """
     npoints, ncol = points.shape
-    x = np.zeros((npoints, 3), dtype=points.dtype)
+    #
+    # Integer angles must not produce an integer (truncated) unit vector.
+    #
+    if np.issubdtype(points.dtype, np.floating):
+        x = np.zeros((npoints, 3), dtype=points.dtype)
+    else:
+        x = np.zeros((npoints, 3), dtype=np.float64)
     phi = np.radians(points[:, 0])
     if latitude:
         theta = np.radians(90.0 - points[:, 1])
